@@ -24,6 +24,16 @@ Proof. repeat split; reflexivity. Qed.
 Lemma gen_maxv_fits : maxv_max < 2 ^ 32. Proof. reflexivity. Qed.
 Lemma gen_tf_fits : tf_max < 2 ^ 32. Proof. reflexivity. Qed.
 
+(* the structural anchors (a pattern that stops matching is a T1 failure; a
+   changed count or mapping breaks this lemma) and the default capacity the
+   harness relies on for "no eviction in T2" *)
+Lemma gen_structure :
+  strip_sections = 3 /\ ttl_min_sections = 3 /\ ttl_sub_checked = true /\
+  strip_parses_all_records = true /\ decrement_parses_all_records = true /\
+  lookup_error_fails_request = true /\ parse_error_is_message_parse_error = true /\
+  100 <= entries_def /\ cache_truncated_def = false /\ class_in = 1 /\ rtype_opt = 41.
+Proof. repeat split; try reflexivity. vm_compute; discriminate. Qed.
+
 (* ---------- configurations ---------------------------------------------------- *)
 Definition cfg_ok (c : config) : Prop :=
   maxv_min <= c_maxv c <= maxv_max /\ tf_min <= c_tf c <= tf_max /\
@@ -215,16 +225,16 @@ Proof.
       * constructor; [unfold opt_ok; intros; lia|exact F].
 Qed.
 
-Definition aged_msg (a : N) (m : msg) : msg :=
-  mkMsg (m_id m) (m_rcode m) (m_aa m) (m_tc m) (m_rd m) (m_ad m) (m_q m)
+Definition aged_msg (a qc : N) (m : msg) : msg :=
+  mkMsg (m_id m) (m_rcode m) (m_aa m) (m_tc m) (m_rd m) (m_ad m) (m_q m) (restore_case m qc)
         (map (age a) (m_an m)) (map (age a) (m_ns m)) (map (age_opt a) (m_ar m)) (m_broken m).
-Definition aged (a : N) (r : resp) : resp :=
-  match r with RMsg m => RMsg (aged_msg a m) | RErr e => RErr e end.
+Definition aged (a qc : N) (r : resp) : resp :=
+  match r with RMsg m => RMsg (aged_msg a qc m) | RErr e => RErr e end.
 
 Definition resp_has_bad (r : resp) : bool := match r with RMsg m => has_bad m | RErr _ => false end.
 
-Lemma decrement_ok r a r' : decrement_ttl r a = Ok r' ->
-  r' = aged a r /\ resp_has_bad r = false /\
+Lemma decrement_ok r a qc r' : decrement_ttl r a qc = Ok r' ->
+  r' = aged a qc r /\ resp_has_bad r = false /\
   (forall m, r = RMsg m -> forall x, counted m x -> a <= r_ttl x).
 Proof.
   destruct r as [m|e]; cbn [decrement_ttl aged resp_has_bad].
@@ -242,10 +252,10 @@ Proof.
   - intros [= <-]; repeat split; discriminate.
 Qed.
 
-Lemma decrement_cases r a :
+Lemma decrement_cases r a qc :
   (forall m, r = RMsg m -> forall x, counted m x -> a <= r_ttl x) ->
-  (decrement_ttl r a = Ok (aged a r) /\ resp_has_bad r = false) \/
-  (decrement_ttl r a = Err parse_error /\ resp_has_bad r = true).
+  (decrement_ttl r a qc = Ok (aged a qc r) /\ resp_has_bad r = false) \/
+  (decrement_ttl r a qc = Err parse_error /\ resp_has_bad r = true).
 Proof.
   destruct r as [m|e]; cbn [decrement_ttl aged resp_has_bad]; [|left; auto].
   intros H. specialize (H m eq_refl). unfold has_bad.
